@@ -23,8 +23,10 @@ typedef std::vector<int> Prog;
 struct Config {
 	std::vector<Prog> threads;
 	int nInitial = 3;      // callbacks registered before the threads start (0: the list starts empty)
+	int wrapAt = 0;        // k > 0: the generation counter is placed so that the k-th addition made by the threads wraps it
 	std::string name() const {
 		std::string s = nInitial == 0 ? "(empty list) " : "";
+		if(wrapAt) s += fmt("(counter wraps at addition %d) ", wrapAt);
 		for(size_t t = 0; t < threads.size(); ++t) {
 			s += fmt("%sT%zu[", t ? " || " : "", t + 1);
 			for(size_t i = 0; i < threads[t].size(); ++i) s += std::string(i ? "; " : "") + kindName(threads[t][i]);
@@ -79,6 +81,7 @@ struct ListT {
 	bool empty(int) { return list.empty(); }
 	void invoke(int, int v) { list(v); }
 	template <typename F> void forEach(int, F f) { list.forEach(f); }
+	void presetCounter(unsigned v) { list.currentCounter.value = v; }
 	template <typename IdOf> uint64_t sharedHash(IdOf idOf) const { return hashList(list, idOf); }
 	template <typename L, typename IdOf> static uint64_t hashList(const L & l, IdOf idOf) {
 		uint64_t h = 17; int guard = 0;
@@ -105,6 +108,7 @@ struct DispT {
 	bool empty(int e) { return !d.hasAnyListener(1 + e); }
 	void invoke(int e, int v) { d.dispatch(1 + e, v); }
 	template <typename F> void forEach(int e, F f) { d.forEach(1 + e, f); }
+	void presetCounter(unsigned v) { auto it = d.eventCallbackListMap.raw().find(1); if(it != d.eventCallbackListMap.raw().end()) const_cast<unsigned &>(it->second.currentCounter.value) = v; }
 	template <typename IdOf> uint64_t sharedHash(IdOf idOf) const {
 		uint64_t h = 23;
 		for(int e = 1; e <= 2; ++e) { auto it = d.eventCallbackListMap.raw().find(e); if(it == d.eventCallbackListMap.raw().end()) h = mix64(h, 5); else h = mix64(h, ListT<Pol>::hashList(it->second, idOf)); }
@@ -266,6 +270,8 @@ struct Run {
 			if(stateful) { s.stateHash = [this](uint64_t & a, uint64_t & b) { stateHash(a, b); }; s.sharedHash = [this]() { return sharedHash(); }; }
 			try {
 				for(int i = 0; i < nInitial; ++i) handles[i] = target.append(0, Cb{this, i});
+				// a reachable state: the same list after 2^32 - wrapAt - nInitial further add/remove pairs
+				if(cfg.wrapAt > 0) { HarnessScope hs; target.presetCounter(0xFFFFFFFFu - (unsigned)(cfg.wrapAt - 1)); }
 				size_t base = 0;
 				for(size_t th = 0; th < cfg.threads.size(); ++th) {
 					size_t b = base, n = cfg.threads[th].size(); int tn = (int)th + 1;
@@ -320,7 +326,39 @@ struct Run {
 static bool touchesH1(int k) { return k == INSERT_H1 || k == REMOVE_H1 || k == OWNS_H1; }
 static bool mutates(int k) { return isAdd(k) || k == REMOVE_H1 || k == REMOVE_H2; }
 
-static std::vector<Config> gen(int tier, bool disp) {
+// configurations in which the generation counter wraps during one of the threads' additions (the renumbering of all
+// nodes then races the other threads' calls); every addition position that can be the wrapping one is generated
+static std::vector<Config> genWrap(int tier, bool disp) {
+	std::vector<Config> v;
+	const int adds[] = {APPEND, PREPEND, INSERT_H1};
+	std::vector<int> others = {APPEND, PREPEND, INSERT_H1, REMOVE_H1, REMOVE_H2, OWNS_H1, EMPTY, INVOKE, FOREACH};
+	if(disp) { others.push_back(APPEND_E2); others.push_back(DISPATCH_E2); }
+	auto nAdds = [](const Config & c) { int n = 0; for(auto & t : c.threads) for(int k : t) if(k == APPEND || k == PREPEND || k == INSERT_H1) ++n; return n; };
+	auto push = [&](Config c) { int n = nAdds(c); for(int w = 1; w <= n; ++w) { c.wrapAt = w; v.push_back(c); } };
+	// 2 threads x 1 op
+	for(int a : adds) for(int b : others) { Config c; c.threads = {{a}, {b}}; push(c); }
+	// from an empty list (ListT only: the dispatcher has no list to preset before the first listener)
+	if(!disp) for(int a : {APPEND, PREPEND}) for(int b : {APPEND, INVOKE, FOREACH, EMPTY}) { Config c; c.nInitial = 0; c.threads = {{a}, {b}}; push(c); }
+	// 3 threads x 1 op: the wrapping addition against two other calls, at least one of them a removal, traversal or addition
+	for(int a : adds) for(size_t i = 0; i < others.size(); ++i) for(size_t j = i; j < others.size(); ++j) {
+		int b = others[i], c3 = others[j];
+		bool interesting = (mutates(b) || isTraversal(b)) && (mutates(c3) || isTraversal(c3));
+		if(!interesting) continue;
+		if(tier == 0 && !(a == APPEND && (b == REMOVE_H1 || b == REMOVE_H2 || c3 == REMOVE_H1 || c3 == REMOVE_H2 || (isTraversal(b) && isAdd(c3)) || (isAdd(b) && isTraversal(c3))))) continue;
+		Config c; c.threads = {{a}, {b}, {c3}}; push(c);
+	}
+	// 2 threads x 2 ops: an addition and a follow-up against two calls of the other thread
+	for(int a1 : adds) for(int a2 : others) for(int b1 : others) for(int b2 : others) {
+		if(!(mutates(b1) || mutates(b2) || isTraversal(b1) || isTraversal(b2))) continue;
+		if(tier == 0 && ((a1 * 7 + a2 * 3 + b1 * 5 + b2) % 5 != 0)) continue;
+		Config c; c.threads = {{a1, a2}, {b1, b2}}; push(c);
+		if(tier >= 1 && a2 != a1) { Config c2; c2.threads = {{a2, a1}, {b1, b2}}; push(c2); }
+	}
+	return v;
+}
+
+static std::vector<Config> gen(int tier, bool disp, bool wrap = false) {
+	if(wrap) return genWrap(tier, disp);
 	std::vector<int> alpha;
 	for(int k = 0; k < (disp ? (int)NKINDS : (int)APPEND_E2); ++k) alpha.push_back(k);
 	std::vector<Config> v;
@@ -365,13 +403,13 @@ static std::vector<Config> gen(int tier, bool disp) {
 static const int NSHARDS = 16;
 
 template <typename Target>
-static void addFamily(const std::string & fam, bool disp, int boundQuick, int boundThorough, int minTier) {
+static void addFamily(const std::string & fam, bool disp, int boundQuick, int boundThorough, int minTier, bool wrap = false) {
 	for(int shard = 0; shard < NSHARDS; ++shard) {
 		Unit u;
 		u.name = fmt("%s/shard%02d", fam.c_str(), shard);
 		u.minTier = minTier;
 		auto pick = [=](int tier) {
-			std::vector<Config> all = gen(tier, disp), mine;
+			std::vector<Config> all = gen(tier, disp, wrap), mine;
 			for(size_t i = 0; i < all.size(); ++i) if((int)(i % NSHARDS) == shard) mine.push_back(all[i]);
 			return mine;
 		};
@@ -419,16 +457,18 @@ static void addFamily(const std::string & fam, bool disp, int boundQuick, int bo
 }
 
 template <typename Target>
-static void addStatefulFamily(const std::string & fam, bool disp, int minTier) {
+static void addStatefulFamily(const std::string & fam, bool disp, int minTier, bool wrap = false) {
 	for(int shard = 0; shard < NSHARDS; ++shard) {
 		Unit u;
 		u.name = fmt("%s/shard%02d", fam.c_str(), shard);
 		u.minTier = minTier;
 		auto pick = [=](int tier) {
-			std::vector<Config> all = gen(tier, disp), mine;
+			std::vector<Config> all = gen(tier, disp, wrap), mine;
 			// the dispatcher's full thorough set is ~250 M states (measured); keep every third configuration of it - a fixed
 			// subset of configurations, each still explored in full (the quick tier's collision-rich subset is generated separately)
-			if(tier >= 1 && disp) { std::vector<Config> third; for(size_t i = 0; i < all.size(); i += 3) third.push_back(all[i]); all.swap(third); }
+			// wrap configurations: the 2-thread x 1-op ones in the quick tier, the quick generator's whole set in the thorough tier
+			if(wrap) { all = gen(0, disp, true); if(tier == 0) { std::vector<Config> small; for(auto & c : all) { size_t n = 0; for(auto & t : c.threads) n += t.size(); if(n <= 2) small.push_back(c); } all.swap(small); } }
+			if(tier >= 1 && disp && !wrap) { std::vector<Config> third; for(size_t i = 0; i < all.size(); i += 3) third.push_back(all[i]); all.swap(third); }
 			for(size_t i = 0; i < all.size(); ++i) if((int)(i % NSHARDS) == shard) mine.push_back(all[i]);
 			return mine;
 		};
@@ -512,6 +552,15 @@ static struct Register {
 #endif
 #if VERIF_SUB < 0 || VERIF_SUB == 4
 		addFamily<DispT<PolSpinMap> >("C03/dispatcher/spinlock-unordered_map", true, 2, 3, 1);
+#endif
+#if (VERIF_SUB < 0 || VERIF_SUB == 7) && !defined(VERIF_NO_PRIVATE)
+		// the generation counter wraps during one of the concurrent additions (placed through private access, as C19 does)
+		addFamily<ListT<PolV> >("C03/wrap/list/vmutex", false, 2, 4, 0, true);
+		addStatefulFamily<ListT<PolV> >("C03/wrap/all-interleavings/list", false, 0, true);
+#endif
+#if (VERIF_SUB < 0 || VERIF_SUB == 8) && !defined(VERIF_NO_PRIVATE)
+		addFamily<DispT<PolVMap> >("C03/wrap/dispatcher/vmutex-map", true, 2, 3, 0, true);
+		addFamily<ListT<PolSpin> >("C03/wrap/list/spinlock", false, 2, 3, 1, true);
 #endif
 	}
 } reg;
